@@ -201,7 +201,7 @@ VT = {
     "bool": {"ty": "bool", "init": "true", "other": "false", "ops": ["+="], "cmp": "true"},
     "str": {"ty": "str", "init": '"x"', "other": '"y"', "ops": ["+="], "cmp": '"q"'},
 }
-DECL_CTX = ["module", "function", "block", "class", "import"]
+DECL_CTX = ["module", "function", "block", "class", "import", "module_unpack", "function_unpack", "block_unpack"]   # *_unpack: declared by `const [a, dd] = [..]`
 FORMS = ["assign", "assign_typed", "redeclare", "op_assign", "unwrap", "modify", "index_assign", "field_assign",
          "index_op_assign", "field_op_assign", "counter", "unpack",
          # the constant in SECOND position of the pattern: after a fresh name / after an existing mutable variable
@@ -239,8 +239,11 @@ def shape_of(form):
     return "scalar"
 
 
-def decl_stmts(shape, vt, const):
+def decl_stmts(shape, vt, const, unpack=False):
     v = VT[vt]
+    if unpack:
+        # the constant is one of the names of a declaration by unpacking (scalars only)
+        return [("unpack", const, ["a", "dd"], ("list", [lit(v["init"]), lit(v["init"])]))] if shape == "scalar" else None
     if shape == "scalar":
         return [("assign", const, False, "a", None, lit(v["init"]))]
     if shape == "optional":
@@ -351,6 +354,11 @@ def build(dctx, form, wctx, vt, op, const=True, hvariant="while"):
     """-> (files{name: AST}, entry) or None when the combination cannot be written down"""
     v = VT[vt]
     shape = shape_of(form)
+    unp = dctx.endswith("_unpack")
+    if unp:
+        dctx = dctx[:-len("_unpack")]
+        if shape != "scalar" or wctx == "other_module":
+            return None
     if wctx in REMODIFY_CTX and form != "modify":
         return None
     if wctx == "other_module":
@@ -383,7 +391,7 @@ def build(dctx, form, wctx, vt, op, const=True, hvariant="while"):
             w = wrap(wctx, write_stmts(form, vt, op), shape, vt)
         pre = [BOX(v["ty"])] if shape == "object" else []
         mm = [("assign", False, False, "mm", None, lit(v["other"]))] if form in ("unpack_after_mutable", "unpack_third") else []
-        body = mm + decl_stmts(shape, vt, const) + w + [("print", observe_expr(shape))]
+        body = mm + decl_stmts(shape, vt, const, unp) + w + [("print", observe_expr(shape))]
         if dctx == "module":
             prog = [MARK] + pre + body + [END]
         elif dctx == "function":
@@ -801,7 +809,7 @@ def module_copy_cases():
     }
     targets = [("k", "= 99"), ("k", "+= 1"), ("v", "= 7"), ("v", "+= 41"), ("v", "-= 1"), ("v", "*= 3"), ("v", "%= 2"), ("ks", "= \"x\""), ("ks", "+= \"x\""),
                ("flag", "= true"), ("o.v", "= 9"), ("o.v", "*= 2"), ("co.v", "= 1"), ("o", "= R.co"), ("lst", "= [4]")]
-    wheres = ["same", "block", "function", "other_module"]
+    wheres = ["same", "block", "function", "other_module", "closure", "closure-depth-2", "closure-in-block"]   # closure*: the name is captured
     out = []
     for rname, (decl, R) in sorted(routes.items()):
         for tgt, w in targets:
@@ -816,6 +824,12 @@ def module_copy_cases():
                         b = inner
                     elif where == "block":
                         b = "if true {\n" + "".join("  " + l + "\n" for l in inner.splitlines()) + "}\n"
+                    elif where == "closure":
+                        b = decl + "g = fn() {\n" + "".join("  " + l + "\n" for l in stmt.splitlines()) + "}\ng()\n"
+                    elif where == "closure-depth-2":
+                        b = decl + "g = fn() {\n  h = fn() {\n" + "".join("    " + l + "\n" for l in stmt.splitlines()) + "  }\n  h()\n}\ng()\n"
+                    elif where == "closure-in-block":
+                        b = decl + "g = fn() {\n  if true {\n" + "".join("    " + l + "\n" for l in stmt.splitlines()) + "  }\n}\ng()\n"
                     else:
                         b = "g = fn() {\n" + "".join("  " + l + "\n" for l in inner.splitlines()) + "}\ng()\n"
                     tail = "print \"END\"\nprint lib.show()\n"
